@@ -399,6 +399,8 @@ class Normaliser:
                 args, kws = [lo_], {}
             elif ast.unparse(lo_) == "0":
                 args, kws = [hi_], {}
+        if short_ == "integers" and len(args) == 2 and "low" not in kws and "high" not in kws and ast.unparse(args[0]) == "0":
+            args = [args[1]]        # integers(0, n) is integers(n)
         # the default dtype spelled out: np.ones(n, dtype=np.float64) is np.ones(n)
         if isinstance(name, str) and name in ("numpy.ones", "numpy.zeros", "numpy.empty", "numpy.full", "numpy.linspace") and "dtype" in kws \
                 and ast.unparse(kws["dtype"]) in ("np.float64", "numpy.float64", "float", "'float64'", "np.double", "'f8'"):
@@ -437,8 +439,12 @@ class Normaliser:
             if len(vals) == len(fields):
                 r.elts = [vals[k] for k in fields]  # type: ignore[attr-defined]
             return r
-        if name in ("id",) and len(args) == 1:
+        F64 = ("np.float64", "numpy.float64", "float", "'float64'", "np.double", "'f8'")
+        if name in ("id",) and len(args) == 1 and all(k == "dtype" and ast.unparse(v) in F64 for k, v in kws.items()):
             return self.rat(args[0])
+        if name == "numpy.array" and "dtype" in kws and ast.unparse(kws["dtype"]) in F64:
+            # the package's numeric data is float64 throughout (declared NDArray[np.float64]): spelling the dtype out does not change a value
+            kws = {k: v for k, v in kws.items() if k != "dtype"}
         if name == "numpy.array" and len(args) == 1 and not isinstance(args[0], (ast.List, ast.Tuple, ast.ListComp, ast.GeneratorExp, ast.Constant)) \
                 and kws and all(k == "copy" and ast.unparse(v) == "True" for k, v in kws.items()):
             return self.rat(args[0])        # a copy of an array has its value
